@@ -56,6 +56,9 @@ BUILT = {
     "C14": ("generated header names and bodies x enumerated guard variants G0-G8; expected-diagnostic oracle with the guard symbol computed by the harness",
             "For generated header names over [a-z0-9_.] and generated bodies: the correct guard is accepted, each guard mutation gets its protection diagnostic, .c files never get one.",
             "Names starting with a digit are excluded.", "§4.14"),
+    "C15": ("generated directory trees and argument lists (Hypothesis) against a reference model of file selection; forked CLI validated against the real CLI",
+            "Trees with look-alike suffixes, names with spaces/dots, directories named like sources, and argument lists mixing files, directories, repeats, missing paths and --use-gitignore; the multiset of verdict lines, the rejection messages and the exit status must match the model.",
+            "No hidden entries/symlinks; gitignore patterns of three shapes that the harness evaluates itself.", "§4.15"),
     "C17": ("metamorphic testing on generated programs: same-width replacement of comment / literal interiors with code-like text",
             "Comment and literal interiors of generated conforming and violating files are replaced by code-like text of the same width; diagnostics must be identical including columns and order.",
             "Replacement alphabet excludes delimiters, backslash, tab, newline and '??' as the property states.", "§4.17"),
